@@ -221,12 +221,14 @@ def build(doc, objs=None, classes=None):
         classes[name] = c
         if objs is not None:
             objs[id(spec)] = c
+            objs.setdefault("__specs__", {})[id(spec)] = spec      # keeps the spec alive: ids are never reused
         return c
 
     def el(s):
         o = el_(s)
         if objs is not None and s["k"] != "Ref":
             objs[id(s)] = o
+            objs.setdefault("__specs__", {})[id(s)] = s
         return o
 
     def el_(s):
